@@ -63,8 +63,15 @@ where
 
         Some(s) if s == &Path::new("-") => {
             use std::io;
+            let mut buf = Vec::new();
             // NOTE(ed): Lack of running
-            compile_with_reader_to_writer(args, reader, io::stdout().by_ref())?;
+            compile_with_reader_to_writer(args, reader, buf.by_ref())?;
+
+            let mut stdout = io::stdout();
+            stdout
+                .write_all(&buf)
+                .and_then(|_| stdout.flush())
+                .map_err(|e| vec![Error::IOError(Rc::new(e))])?;
         }
 
         Some(s) => {
